@@ -76,9 +76,12 @@ func c14Body() func(h []dsim.Rec) {
 	e.w.ChunkMode = dsim.Choose(3)
 	dsim.SetDate(time.Date(2029, 2, 1, 0, 0, 0, 0, time.UTC))
 	e.start = time.Now()
-	kind := []int{epTCPClient, epUDPClient, epSerial, epTCPServer, epUDPServer, epBroadcast}[dsim.Choose(6)]
+	kind := []int{epTCPClient, epUDPClient, epSerial, epTCPServer, epUDPServer, epBroadcast, epCustom}[dsim.Choose(7)]
 	if kind == epBroadcast {
 		return c14Broadcast(cfg)
+	}
+	if kind == epCustom {
+		return c14Custom(cfg)
 	}
 	ep := e.addEndpoint(kind)
 	clientType := kind == epTCPClient || kind == epUDPClient || kind == epSerial
@@ -173,7 +176,7 @@ func c14Body() func(h []dsim.Rec) {
 			}
 		}
 		if connIdx < len(sessions) && sessions[connIdx].ending == endReadErr {
-			c.SetFaults(world.Faults{ReadErrAt: c.NReads + sessions[connIdx].readK + 1, ReadErr: errInjectedRead})
+			c.SetFaults(world.Faults{ReadErrAt: c.ReadCount() + sessions[connIdx].readK + 1, ReadErr: errInjectedRead})
 			count("fault:plan-read-error")
 		}
 		connIdx++
@@ -583,6 +586,104 @@ func c14Body() func(h []dsim.Rec) {
 					x.armed = false
 				}
 			}
+		}
+	}
+}
+
+// c14Custom: a TRANSIENT read error on a custom transport (a permanent one makes the provider
+// hand the dead transport out again for ever, see the header): the close event carries the
+// cause and the endpoint comes back with a fresh channel on which traffic continues.
+func c14Custom(cfg *nodeCfg) func(h []dsim.Rec) {
+	e := newEnv(cfg)
+	e.w.ChunkMode = dsim.Choose(3)
+	dsim.SetDate(time.Date(2029, 2, 1, 0, 0, 0, 0, time.UTC))
+	e.start = time.Now()
+	ep := e.addEndpoint(epCustom)
+	cons := &consumer{e: e, pace: dsim.Choose(2)}
+	e.cons = cons
+	l := e.customLink(ep)
+	if err := e.startNode(); err != nil {
+		dsim.Failf("harness", "node did not initialise: %v", err)
+		return nil
+	}
+	dsim.Go("consumer", cons.run)
+	before := dsim.Choose(5)
+	after := 1 + dsim.Choose(5)
+	dsim.Record("plan", "custom transient-read-error", nil, 1)
+	e.peerScript(l, before, false)
+	dsim.Sleep(200 * time.Millisecond)
+	dsim.Settle("before-fault")
+	k := 1 + dsim.Choose(3)
+	ep.pipe.SetFaults(world.Faults{ReadErrAt: ep.pipe.ReadCount() + k, ReadErr: errInjectedRead, ReadErrOnce: true})
+	count("fault:plan-read-error")
+	// keep the node reading until it hits the failing read; what is in flight then may be lost
+	sawClose := func() (closes, opens int) {
+		for _, o := range cons.snapshot() {
+			switch o.kind {
+			case evClose:
+				closes++
+			case evOpen:
+				opens++
+			}
+		}
+		return
+	}
+	for i := 0; i < 200; i++ {
+		if c, o := sawClose(); c > 0 && o >= 2 {
+			break
+		}
+		if l.send(sendValid, false) != nil {
+			break
+		}
+		dsim.Sleep(50 * time.Millisecond)
+	}
+	dsim.Sleep(500 * time.Millisecond)
+	dsim.Settle("after-fault")
+	if c, _ := sawClose(); c == 0 {
+		return nil // the fault never fired (the reads never reached it): nothing to judge
+	}
+	mark := len(l.sent)
+	e.peerScript(l, after, false)
+	dsim.Sleep(2 * time.Second)
+	dsim.Settle("quiescence")
+	events := cons.snapshot()
+	e.node.Close()
+	return func(h []dsim.Rec) {
+		var closes []obs
+		opens := 0
+		framesAfter := 0
+		for _, o := range events {
+			switch o.kind {
+			case evOpen:
+				opens++
+			case evClose:
+				closes = append(closes, o)
+			case evFrame:
+				if opens >= 2 {
+					framesAfter++
+				}
+			}
+		}
+		if len(closes) != 1 {
+			dsim.Failf("close-reported", "one transient read error on a custom transport produced %d close events", len(closes))
+			return
+		}
+		if !errors.Is(closes[0].err, errInjectedRead) {
+			dsim.Failf("close-cause", "the custom transport failed with the injected read error, but the close event carries %v", closes[0].err)
+			return
+		}
+		if opens != 2 {
+			dsim.Failf("reconnect", "after the transient failure of the custom transport the endpoint opened %d channels in total, expected a fresh one (2)", opens)
+			return
+		}
+		wantAfter := 0
+		for _, it := range l.sent[mark:] {
+			if it.kind == sendValid && it.done {
+				wantAfter++
+			}
+		}
+		if framesAfter < wantAfter {
+			dsim.Failf("reconnect", "%d frames were sent on the custom transport after it had recovered, only %d surfaced on the fresh channel", wantAfter, framesAfter)
 		}
 	}
 }
